@@ -36,6 +36,9 @@ CHECKS = {
     "C08": dict(engine="E1+E4", cat="model_checking", ref="4/C08",
                 text="E1 on throwing FixedCapacityVector drives every growing operation from every reachable state including all calls that exceed N (expected: out_of_range, state unchanged); a complete grid near the maximum of 8-bit size types covers overflow_error for dynamic vectors; at(i) for every i in [0,size+2).",
                 note=E1_NOTE, tech="explicit-state BFS plus complete boundary grid on the real implementation"),
+    "C09": dict(engine="E3", cat="fault_enumeration", ref="4/C09",
+                text="On top of the E1/E2 state sets: for every explored (state, operation) the number E of throwing events inside the operation (element value/default/copy construction, copy assignment, allocate/reallocate) is measured and the history is replayed E times with the k-th event throwing, for EVERY k. After the fault: ledgers balanced, every visible element alive and not moved-from, documented strong-guarantee operations left the contents unchanged, const sources untouched; the state the fault left behind is then explored like any other (every further operation, destruction), with a second fault allowed in the thorough tier.",
+                note=E1_NOTE + "; fault points are those of the instrumented element types and ledger allocators (std::bad_alloc / a private exception type); sets: basic guarantee = still a valid set equal to some std::set", tech="exhaustive fault-point enumeration over the explored state set of the real implementation"),
     "C15": dict(engine="E-mem", cat="fault_enumeration", ref="4/C15",
                 text="Every memory algorithm x length x iterator kind x value category x EVERY throw index, under -std=c++11/14/17/20 (separate builds so both the emulations and the std:: branches run), compared with a reference written from the standard's wording and with std:: itself; ledger shows all created objects destroyed and relocate sources alive after a throw.",
                 note="lengths 0..3 (quick) / 0..5 (thorough); g++ (and clang++ in thorough); forked per group so UB crashes are attributed to a case",
@@ -50,7 +53,6 @@ CHECKS = {
 }
 
 NOT_YET = {
-    "C09": "check under construction (E3 fault enumerator)",
     "C10": "check under construction",
     "C12": "check under construction",
     "C13": "check under construction",
@@ -63,6 +65,7 @@ NOT_YET = {
 ENGINES = [
     dict(name="E1", path="src/explore_vec.cpp", serves_properties=["C01", "C02", "C05", "C06", "C07", "C08", "C10", "C14"], kind_free_text="explicit-state BFS over real vector instantiations with reference model and ledgers"),
     dict(name="E2", path="src/explore_set.cpp", serves_properties=["C02", "C03", "C04", "C05", "C11", "C14"], kind_free_text="explicit-state BFS over real FlatSet/SmallSet instantiations against std::set"),
+    dict(name="E3", path="src/explore_vec.cpp --fault / src/explore_set.cpp --fault", serves_properties=["C09"], kind_free_text="fault-index enumeration over every explored (state, operation) of E1/E2"),
     dict(name="E-mem", path="src/c15/c15.cpp", serves_properties=["C15"], kind_free_text="exhaustive case x fault-index enumeration of the memory algorithms per language standard"),
     dict(name="E6", path="src/c20/harness.cpp", serves_properties=["C20"], kind_free_text="preemption-bounded schedule explorer over real threads (serialising scheduler)"),
     dict(name="E7", path="checks/c17.py", serves_properties=["C17"], kind_free_text="generated static matrix, compiler-decided cells vs Python oracle"),
